@@ -2,10 +2,12 @@
 (* TG: every accessor history of length HistLen for every request kind.      *)
 EXTENDS AccessorMemo, Json, IOUtils
 CONSTANT HistLen
+CONSTANT FreshVariants   \* TRUE: histories also use AuthorizeFresh / BindAndValidateFresh; FALSE: the eight plain accessors only
+GenAccessors == IF FreshVariants THEN Accessors ELSE Accessors \ {"AuthorizeFresh", "BindAndValidateFresh"}
 VARIABLES in, hist, done
 vars == <<in, hist, done>>
 Init == in \in Kinds /\ hist = << >> /\ done = FALSE /\ TLCSet(1, << >>)
-Extend == /\ Len(hist) < HistLen /\ \E a \in Accessors : hist' = Append(hist, a)
+Extend == /\ Len(hist) < HistLen /\ \E a \in GenAccessors : hist' = Append(hist, a)
           /\ UNCHANGED <<in, done>>
 Export == /\ Len(hist) = HistLen /\ ~done
           /\ TLCSet(1, Append(TLCGet(1), [req |-> in, hist |-> hist]))
